@@ -32,6 +32,7 @@ import (
 	"time"
 
 	"github.com/patrickmn/go-cache"
+	"google.golang.org/protobuf/encoding/protowire"
 	"google.golang.org/protobuf/proto"
 
 	"github.com/scionproto/scion/pkg/addr"
@@ -594,6 +595,18 @@ func (e *env) mutants(pb, other *cppb.PathSegment, specs []entrySpec, perKind in
 			}, nil)
 			return fmt.Sprintf("entry %d header field %d", i, k)
 		})
+		add("reencode-swap-fields", true, func(m *cppb.PathSegment) string {
+			// same header, same body, same length: the two fields of HeaderAndBody in the opposite order
+			var outer cryptopb.HeaderAndBody
+			sm := m.AsEntries[i].Signed
+			if proto.Unmarshal(sm.HeaderAndBody, &outer) == nil && len(outer.Header) > 0 && len(outer.Body) > 0 {
+				out := protowire.AppendTag(nil, 2, protowire.BytesType)
+				out = protowire.AppendBytes(out, outer.Body)
+				out = protowire.AppendTag(out, 1, protowire.BytesType)
+				sm.HeaderAndBody = protowire.AppendBytes(out, outer.Header)
+			}
+			return fmt.Sprintf("entry %d of %d: HeaderAndBody re-encoded with body before header (length preserved)", i, n)
+		})
 		if i < n-1 {
 			add("alter-earlier-sig-byte", true, func(m *cppb.PathSegment) string {
 				sig := m.AsEntries[i].Signed.Signature
@@ -716,8 +729,15 @@ func (e *env) replay(name, note string, pb, orig *cppb.PathSegment, f segFacts, 
 // judge runs one protobuf segment through the real code, the model line and the predicate.
 func (e *env) judge(m mutant, orig *cppb.PathSegment, v compat.Verifier, tag string) outcome {
 	f := e.w.facts(m.pb)
+	before := clonePB(m.pb)
 	o, ans := e.verify(m.pb, v)
 	e.Op(f.op, ans, tag)
+	if !proto.Equal(before, m.pb) {
+		d := e.replay(m.name, m.note, before, orig, f, ans)
+		d["after_verification"] = e.replay(m.name, m.note, m.pb, nil, f, ans)["entries"]
+		e.Violate("C24/verify-modified-input", "segment verification modified the bytes of the segment it was given: "+m.note, d)
+		m.pb = before
+	}
 	if strings.HasPrefix(ans, "PANIC") {
 		e.Violate("C24/panic", "verification panicked: "+ans, e.replay(m.name, m.note, m.pb, orig, f, ans))
 		return o
